@@ -21,7 +21,9 @@ META = dict(
          "only as a barrier). The breaker inside redis.Redis has its coin forced to 'never reject' (H2) so that "
          "breaker rejections (C01) do not blur fallback/return. Not generated: server clock ahead of the caller "
          "clock (DESIGN 5), caller clock stepping backwards, requests between recovery and the monitor's ping, "
-         "Align() windows (wall clock), context cancellation. Bound is stated per bucket (Redis bucket, rescue "
+         "context cancellation. Align() is covered for the window length handed to Redis and the resulting TTL (table of "
+         "PeriodLimit!AlignedWindow for the wall-clock seconds of the run, three zone offsets, four periods), not for "
+         "histories across an aligned boundary (wall clock cannot be steered). Bound is stated per bucket (Redis bucket, rescue "
          "bucket): the rescue bucket starts full at the first outage, so no joint bound exists in the design.",
     technique="TLA+ specs (PeriodLimit, TokenLimit) + TLC-generated behaviours replayed on the real limiters over miniredis",
     design="4/C08")
@@ -40,10 +42,10 @@ def mc(ctx):
                           properties=["KeysIndependent", "FreshOnlyAfterExpiry"], constraints=["Bound_"])
     ctx.tlc("PeriodLimit", cfg, constants=K, defs=dict(Bound_="Len(log) <= %d /\\ srv <= %d" % ((4, 4) if ctx.quick else (5, 6))),
             name="PeriodLimit-mc", timeout=900, workers=W, heap="2g")
-    K = dict(Configs=TCFG, MaxN=3, MaxStep=3)
+    K = dict(Configs="{<<1,1>>, <<3,2>>, <<2,3>>}", MaxN=2, MaxStep=2)
     cfg = core.render_cfg(spec="Spec", constants=K, invariants=["TypeOK", "ScriptIsIdeal", "RedisIsIdeal", "Bound"],
                           properties=["Fallback", "Return", "OnlyPingReturns"], constraints=["Bound_"])
-    ctx.tlc("TokenLimit", cfg, constants=K, defs=dict(Bound_="Len(glog) <= %d /\\ now <= %d" % ((4, 5) if ctx.quick else (5, 6))),
+    ctx.tlc("TokenLimit", cfg, constants=K, defs=dict(Bound_="Len(glog) <= %d /\\ now <= %d" % ((3, 3) if ctx.quick else (3, 4))),
             name="TokenLimit-mc", timeout=900, workers=W, heap="3g")
 
 
@@ -63,24 +65,36 @@ def gen_token(ctx, name, configs, maxlen, maxn, maxstep, maxdown, simulate=None)
     return r.printed
 
 
+def one_per_prefix(cases):
+    """TLC's simulator evaluates the Emit invariant on every successor of the last state of a trace, so a
+    simulated trace is printed once per possible last step; keep one behaviour per trace."""
+    seen, out = set(), []
+    for c in cases:
+        k = c.rsplit(',{"op"', 1)[0]
+        if k not in seen:
+            seen.add(k)
+            out.append(c)
+    return out
+
+
 def run(ctx):
     mc(ctx)
     binp = ctx.go_build(PKG, OVERLAY, name="c08drv")
     ctx.assumptions += ["server clock never ahead of the caller clock (DESIGN 5)", "caller clock monotone",
                         "breaker coin forced to never-reject (H2)"]
     if ctx.quick:
-        pplans = [("p4", dict(configs=PCFG, maxlen=4, maxadv=3, maxburst=3))]
+        pplans = [("p4", dict(configs=PCFG, maxlen=4, maxadv=3, maxburst=2))]
         psims = [("ps", dict(configs="{<<3,2>>, <<4,3>>, <<2,5>>}", maxlen=40, maxadv=4, maxburst=5), 300)]
         tplans = [("t4", dict(configs=TCFG, maxlen=4, maxn=3, maxstep=3, maxdown=0)),
                   ("t4o", dict(configs="{<<1,2>>, <<3,2>>}", maxlen=4, maxn=2, maxstep=1, maxdown=1))]
         tsims = [("ts", dict(configs="{<<3,2>>, <<2,5>>, <<5,3>>, <<4,8>>}", maxlen=40, maxn=4, maxstep=4, maxdown=0), 300),
                  ("tso", dict(configs="{<<3,2>>, <<2,5>>}", maxlen=25, maxn=3, maxstep=3, maxdown=2), 60)]
     else:
-        pplans = [("p5", dict(configs=PCFG, maxlen=5, maxadv=3, maxburst=3)),
-                  ("p6", dict(configs="{<<2,1>>, <<3,2>>}", maxlen=6, maxadv=2, maxburst=2))]
-        psims = [("ps", dict(configs="{<<3,2>>, <<4,3>>, <<2,5>>, <<7,4>>, <<1,3>>}", maxlen=60, maxadv=5, maxburst=8), 3000)]
+        pplans = [("p4", dict(configs=PCFG, maxlen=4, maxadv=3, maxburst=3)),
+                  ("p5", dict(configs=PCFG, maxlen=5, maxadv=2, maxburst=2))]
+        psims = [("ps", dict(configs="{<<3,2>>, <<4,3>>, <<2,5>>, <<7,4>>, <<1,3>>}", maxlen=60, maxadv=5, maxburst=8), 1500)]
         tplans = [("t5", dict(configs=TCFG, maxlen=5, maxn=3, maxstep=3, maxdown=0)),
-                  ("t6", dict(configs="{<<3,2>>, <<2,3>>}", maxlen=6, maxn=3, maxstep=2, maxdown=0)),
+                  ("t6", dict(configs="{<<3,2>>}", maxlen=6, maxn=3, maxstep=2, maxdown=0)),
                   ("t5o", dict(configs="{<<1,2>>, <<3,2>>}", maxlen=5, maxn=2, maxstep=1, maxdown=1))]
         tsims = [("ts", dict(configs="{<<3,2>>, <<2,5>>, <<5,3>>, <<4,8>>, <<7,4>>, <<1,1>>}", maxlen=60, maxn=5, maxstep=5, maxdown=0), 3000),
                  ("tso", dict(configs="{<<3,2>>, <<2,5>>, <<5,3>>}", maxlen=50, maxn=3, maxstep=3, maxdown=4), 400)]
@@ -91,7 +105,7 @@ def run(ctx):
         ctx.samples += core.sample_of(cases, 1)
         ctx.replay(PKG, OVERLAY, "^TestVerifC08Period$", path, label=name, shards=16, binp=binp)
     for name, kw, num in psims:
-        cases = gen_period(ctx, name, simulate=num, **kw)
+        cases = one_per_prefix(gen_period(ctx, name, simulate=num, **kw))
         path, _ = ctx.write_cases(name + ".ndjson", cases)
         ctx.replay(PKG, OVERLAY, "^TestVerifC08Period$", path, label=name, shards=16, binp=binp)
     for name, kw in tplans:
@@ -100,12 +114,25 @@ def run(ctx):
         ctx.samples += core.sample_of(cases, 1)
         ctx.replay(PKG, OVERLAY, "^TestVerifC08Token$", path, label=name, shards=16, binp=binp)
     for name, kw, num in tsims:
-        cases = gen_token(ctx, name, simulate=num, **kw)
+        cases = one_per_prefix(gen_token(ctx, name, simulate=num, **kw))
         path, _ = ctx.write_cases(name + ".ndjson", cases)
         ctx.replay(PKG, OVERLAY, "^TestVerifC08Token$", path, label=name, shards=16, binp=binp)
 
 
+def align(ctx, binp):
+    """Align(): table of AlignedWindow for the wall-clock seconds of the next 20 minutes."""
+    import time
+    K = dict(T0=int(time.time()) - 5, Span=1200, Offsets="{0, 28800, -16200}", Periods="{7, 60, 3600, 86400}")
+    cfg = core.render_cfg(spec="Spec", constants=K, invariants=["Emit"])
+    r = ctx.tlc("PeriodAlignGen", cfg, constants=K, name="align", timeout=300, workers=1, heap="2g")
+    path, _ = ctx.write_cases("align.ndjson", r.printed)
+    ctx.replay(PKG, OVERLAY, "^TestVerifC08Align$", path, label="align", shards=1, binp=binp)
+
+
 def replay(ctx, rp):
     path, _ = ctx.write_cases("replay.ndjson", [rp["case"]])
-    test = "^TestVerifC08Period$" if (rp.get("key") or "").startswith("C08:period") else "^TestVerifC08Token$"
+    key = rp.get("key") or ""
+    if key.startswith("C08:period:align"):
+        return align(ctx, ctx.go_build(PKG, OVERLAY, name="c08drv"))
+    test = "^TestVerifC08Period$" if key.startswith("C08:period") else "^TestVerifC08Token$"
     ctx.replay(PKG, OVERLAY, test, path, label="replay")
